@@ -104,7 +104,7 @@ Proof. trace. Qed.
 
 (** the three property defects that are already repaired in /repo, shown on the model of the old code *)
 Definition old_props : behaviour :=
-  mkBeh true true true true true true true false false false true true true true true.
+  mkBeh true true true true true true true false false false true true true true true true.
 Example refuted_values : leaves_trace old_props (OSetValues 9 [DInt64; DInt64; DString]).
 Proof. trace. Qed.
 Example refuted_prop_values : leaves_trace old_props (OCreate (Some 8) KProperty "q" "" (XPropV [DInt64; DString])).
